@@ -1056,7 +1056,7 @@ func (c *checker) worldCheck() (map[string]any, int, int) {
 
 	// thorough tier of C18: collections at statement points inside operations
 	pointsInfo := map[string]any{"enabled": false}
-	if c.cfg.points && (c.tier == "thorough" || (os.Getenv("VERIF_POINTS_QUICK") != "" && os.Getenv("VERIF_POINTS_QUICK") != "0")) {
+	if c.cfg.points && (c.tier == "thorough" || os.Getenv("VERIF_POINTS_QUICK") != "0") {
 		pbin, ok, info := c.buildInstrumented(c.cfg.binName+"-points", c.cfg.buildFlags)
 		if !ok {
 			pointsInfo["fallback"] = "statement points unavailable, step-boundary events only: " + info
